@@ -195,10 +195,22 @@ pub fn run(ctx: &Ctx, rep: &mut Report) {
         rep.stats("sample_in_ball_extreme_signatures").maximum(&format!("max_consecutive_rejections_set{}", e.set), i64::from(e.sib_max_run));
     }
     crate::engine::run_list(rep, "sample_in_ball_extreme_signatures", &ext, check);
+    // very long messages (lengths around 2^16, 2^17, 2^20, 2^24), every mode and provenance pair
+    let mut long: Vec<Case> = Vec::new();
+    for (li, len) in crate::props::c03::LONG_MSG_LENS.iter().enumerate() {
+        for mode in 0..4u8 {
+            if ctx.quick() && *len > (1 << 20) + 168 && mode % 2 == 0 {
+                continue;
+            }
+            let s = crate::engine::hash_of(&(ctx.seed, "c01-long", len, mode));
+            long.push(Case { set: ((li + mode as usize + 1) % 3) as u8, key: Seed32::Uniform(s % 3), msg: BytesSpec { len: *len, constant: None, seed: s }, ctx: BytesSpec { len: (s % 256) as u32, constant: None, seed: s ^ 1 }, mode, rnd: Seed32::Uniform(s ^ 2), sk_prov: (s >> 9) as u8 & 1, pk_prov: (s >> 10) as u8 & 3, classify: false });
+        }
+    }
+    crate::engine::run_list(rep, "long_messages", &long, check);
 }
 
 pub fn replay(_ctx: &Ctx, sub: &str, case: &Value) -> Option<CheckResult> {
-    if sub == "generated" || sub.starts_with("screened_") || sub == "sample_in_ball_extreme_signatures" {
+    if sub == "generated" || sub.starts_with("screened_") || sub == "sample_in_ball_extreme_signatures" || sub == "long_messages" {
         let c: Case = from_case(case);
         let mut st = Stats::default();
         return Some(check(&c, &mut st));
